@@ -39,6 +39,8 @@ def scenario(variant, tier):
         if nested:
             t = build_u2(b, sym)
             t.file("R/B/shoot.log", 6)  # matches a pattern that only a nested history was sealed with
+            b.mkfile("R/notes.tmp", 7)  # ignored by the root history's own pattern
+            patterns = ["*.tmp"]
             # nested histories created first, bottom-up or not at the solver's choice
             order = sym.choose("child_order", [["R/A/AA", "R/AB"], ["R/AB", "R/A/AA"], ["R/A/AA", "R/A"]])
             child_pats = ["*.log"] if sym.flag("children_sealed_with_own_pattern") else []
@@ -58,6 +60,10 @@ def scenario(variant, tier):
             fs1 = sym.choose("fmt1", FORMATSETS[:2] if tier == "quick" else FORMATSETS[1:3])
             r = b.run("create", root="R", h=fs1)
             b.require(r.exit == 0 and r.exc is None, "unchanged-create-exit-0", "second generation: %s" % r)
+        if nested and sym.flag("sf_into_child_before"):
+            # a run that only adds a generation to a nested history (the parents get reference-only generations)
+            r = b.run("create", root="R", h=fs0, sf=["R/A/AA/aa1.txt"])
+            b.require(r.exit == 0 and r.exc is None, "unchanged-create-exit-0", "create -sf into a nested history: %s" % r)
         files = sorted(f for f in t.files if not f.endswith(".tmp"))
         dirs_empty = [d for d in t.dirs if d != "R" and not b.listdir(d)]
         kinds = ["none", "alter", "delete", "add", "touch"]
@@ -107,9 +113,9 @@ def scenario(variant, tier):
                 b.touch(f, 1600000000)
                 b.note("touch %s" % f)
             elif part == "ign-alter":
-                b.alter("R/d/t.tmp", 55)
+                b.alter("R/notes.tmp" if nested else "R/d/t.tmp", 55)
             elif part == "ign-delete":
-                b.delete("R/d/t.tmp")
+                b.delete("R/notes.tmp" if nested else "R/d/t.tmp")
             elif part == "ign-add":
                 b.mkfile("R/z2.tmp", 56)
         rel = lambda p: posixpath.relpath(p, "R")
